@@ -725,6 +725,20 @@ func (db *DB) searchAll(o Object, field, operator string, value interface{}, con
 		return &Search{db: db, err: err}
 	}
 
+	// evaluate cannot report errors, so the operator and the pattern of a
+	// regex search are validated here, as a search on an indexed field does
+	switch operator {
+	case "=", "!=", ">", ">=", "<", "<=":
+	case "~=":
+		if pattern, ok := search.Value.(string); ok {
+			if _, err = regexp.Compile(pattern); err != nil {
+				return &Search{db: db, err: err}
+			}
+		}
+	default:
+		return &Search{db: db, err: fmt.Errorf("%w %s", ErrUnkownSearchOperator, operator)}
+	}
+
 	// building up the iterator out of constrain
 	if constrain != nil {
 		uuids := make([]string, 0, len(constrain))
